@@ -197,6 +197,17 @@ class MyStr(str):
     pass
 
 
+class FmtTable(dict):
+    """name -> '{0.name}' as a plain str / Markup / str subclass: format strings supplied as data."""
+
+    def __init__(self, wrap):
+        super().__init__()
+        self._wrap = wrap
+
+    def __missing__(self, key):
+        return self._wrap("{0.%s}" % key)
+
+
 class World:
     """Fresh probe data for one render."""
 
@@ -266,9 +277,9 @@ class World:
             "dct": {"k": o, "j": o2},
             "nested": {"a": [o], "b": {"c": o}},
             "names": list(names),
-            "fmts": {n: "{0.%s}" % n for n in ALL_NAMES},
-            "mfmts": {n: Markup("{0.%s}" % n) for n in ALL_NAMES},
-            "sfmts": {n: MyStr("{0.%s}" % n) for n in ALL_NAMES},
+            "fmts": FmtTable(str),
+            "mfmts": FmtTable(Markup),
+            "sfmts": FmtTable(MyStr),
         }
 
     def close(self):
@@ -295,106 +306,143 @@ def make_env(kind, is_async=False, autoescape=False, loader=None, extensions=())
 # C17: names, receivers, primitives, consumption
 
 TRACER_NAMES = ["_p", "_cp", "__dd", "__cd__", "_prop", "_dynx", "__dynx__", "_pmeth", "_", "_Probe__mangled"]
-OBJ_NAMES = ["__class__", "__dict__", "__init__", "__module__", "__doc__", "__reduce__", "__getattribute__",
-             "__repr__", "__str__", "__eq__", "__dir__", "__sizeof__", "__reduce_ex__", "__init_subclass__",
-             "__subclasshook__", "__setattr__", "__new__", "__hash__", "__format__"]
-CLASS_NAMES = ["mro", "__mro__", "__bases__", "__subclasses__", "__base__", "__name__", "__qualname__", "__call__"]
-FUNC_NAMES = ["__globals__", "__code__", "__closure__", "__defaults__", "__builtins__", "__kwdefaults__",
-              "__call__", "__get__", "__name__", "__qualname__", "__annotations__",
-              "func_globals", "func_code", "func_closure", "func_defaults"]
-METH_NAMES = ["__func__", "__self__", "im_class", "im_func", "im_self"]
-GEN_NAMES = ["gi_frame", "gi_code", "__next__", "__iter__"]
-CORO_NAMES = ["cr_frame", "cr_code", "__await__"]
-AGEN_NAMES = ["ag_frame", "ag_code", "__aiter__", "__anext__"]
-CODE_NAMES = ["co_code", "co_consts", "co_filename", "co_name", "co_names", "co_varnames", "co_argcount", "replace",
-              "co_lines", "co_positions", "co_firstlineno", "co_flags"]
-FRAME_NAMES = ["f_globals", "f_locals", "f_code", "f_back", "f_builtins", "f_lineno", "f_lasti", "clear", "f_trace"]
-TB_NAMES = ["tb_frame", "tb_next", "tb_lineno", "tb_lasti"]
-STR_NAMES = ["__class__", "__add__", "__mod__", "__len__", "__doc__", "__getitem__", "__contains__", "__iter__"]
-ENGINE_NAMES = ["_func", "_environment", "_argument_count", "_caller", "_iterable", "_iterator", "_length", "_after",
-                "_undefined", "_recurse", "_TemplateReference__context", "_stack", "_context", "_depth", "_cycler",
-                "_undefined_name", "_undefined_hint", "_undefined_obj", "_undefined_exception", "_fail_with_undefined_error",
-                "_Namespace__attrs", "_body_stream", "__class__", "__init__", "__dict__", "__call__", "__globals__",
-                "__code__", "__self__", "__func__", "__module__", "__doc__", "__wrapped__", "__name__"]
+# dunder names tried wherever they exist on the receiver
+DUNDER_PICK = [
+    "__class__", "__dict__", "__init__", "__module__", "__doc__", "__reduce__", "__reduce_ex__", "__getattribute__",
+    "__repr__", "__str__", "__eq__", "__dir__", "__sizeof__", "__init_subclass__", "__subclasshook__", "__setattr__",
+    "__new__", "__hash__", "__format__", "__mro__", "__bases__", "__base__", "__subclasses__", "__name__", "__qualname__",
+    "__call__", "__globals__", "__code__", "__closure__", "__defaults__", "__builtins__", "__kwdefaults__", "__get__",
+    "__annotations__", "__func__", "__self__", "__wrapped__", "__next__", "__iter__", "__await__", "__aiter__", "__anext__",
+    "__add__", "__mod__", "__len__", "__getitem__", "__contains__", "__html__", "__html_format__", "__int__", "__slots__",
+    "__weakref__", "__enter__", "__exit__", "__getattr__", "__delattr__", "__getstate__", "__class_getitem__",
+]
+# names without a leading underscore that the sandbox classifies as internal on some type
+INTERNAL_PUBLIC = ["mro", "gi_frame", "gi_code", "cr_frame", "cr_code", "ag_frame", "ag_code"]
+# names that exist nowhere on Python 3 (the sandbox answers undefined for them): kept as a low-weight class
+LEGACY_NAMES = ["func_globals", "func_code", "func_closure", "func_defaults", "im_class", "im_func", "im_self", "__nonexistent__",
+                "_nonexistent"]
 
-ALL_NAMES = sorted(set(TRACER_NAMES + OBJ_NAMES + CLASS_NAMES + FUNC_NAMES + METH_NAMES + GEN_NAMES + CORO_NAMES
-                       + AGEN_NAMES + CODE_NAMES + FRAME_NAMES + TB_NAMES + STR_NAMES + ENGINE_NAMES))
-
-# Data receivers: (context variable, hops) with hops = [("a", attr) | ("i", key)], and the names worth trying.
 _PROBE_HOPS = [
     ("o", []), ("o2", []), ("o", [("a", "child")]), ("o", [("a", "items"), ("i", 0)]), ("o", [("a", "table"), ("i", "k")]),
     ("lst", [("i", 0)]), ("tup", [("i", 1)]), ("dct", [("i", "k")]), ("nested", [("i", "a"), ("i", 0)]),
     ("nested", [("i", "b"), ("i", "c")]), ("ps", [("i", 1)]),
 ]
-DATA_RECEIVERS = (
-    [(b, h, TRACER_NAMES + OBJ_NAMES) for b, h in _PROBE_HOPS]
-    + [
-        ("C", [], TRACER_NAMES[1:2] + CLASS_NAMES + OBJ_NAMES),
-        ("f", [], FUNC_NAMES + OBJ_NAMES),
-        ("m", [], METH_NAMES + FUNC_NAMES + OBJ_NAMES),
-        ("o", [("a", "meth")], METH_NAMES + FUNC_NAMES),
-        ("g", [], GEN_NAMES + OBJ_NAMES),
-        ("co", [], CORO_NAMES + OBJ_NAMES),
-        ("ag", [], AGEN_NAMES + OBJ_NAMES),
-        ("code", [], CODE_NAMES),
-        ("frame", [], FRAME_NAMES),
-        ("tb", [], TB_NAMES),
-        ("st", [], STR_NAMES),
-        ("mys", [], STR_NAMES),
-        ("mk", [], STR_NAMES + ["__html__", "__html_format__"]),
-        ("num", [], OBJ_NAMES + ["__add__", "__int__"]),
-        ("lst", [], OBJ_NAMES + ["__len__", "__iter__", "__getitem__"]),
-        ("dct", [], OBJ_NAMES + ["__len__", "__iter__", "__getitem__", "__contains__"]),
-    ]
-)
-
-# Engine-provided receivers: (prefix, expression, suffix, names); available only as expressions.
-ENGINE_RECEIVERS = [
-    ("", "''", "", STR_NAMES + OBJ_NAMES),
-    ("", "'a{0}'", "", STR_NAMES),
-    ("", "('x'|safe)", "", STR_NAMES + ["__html__"]),
-    ("", "0", "", OBJ_NAMES),
-    ("", "[]", "", OBJ_NAMES),
-    ("", "{}", "", OBJ_NAMES),
-    ("", "()", "", OBJ_NAMES),
-    ("", "true", "", OBJ_NAMES),
-    ("", "none", "", OBJ_NAMES),
-    ("", "range(2)", "", OBJ_NAMES),
-    ("", "range", "", FUNC_NAMES),
-    ("", "lipsum", "", FUNC_NAMES),
-    ("", "cycler", "", CLASS_NAMES + OBJ_NAMES),
-    ("", "joiner", "", CLASS_NAMES),
-    ("", "namespace", "", CLASS_NAMES + ["_Namespace__attrs"]),
-    ("", "namespace(a=1)", "", ENGINE_NAMES),
-    ("", "cycler(1, 2)", "", OBJ_NAMES),
-    ("", "nope", "", ENGINE_NAMES),
-    ("", "self", "", ENGINE_NAMES),
-    ("{% block bk %}{% endblock %}", "self.bk", "", ENGINE_NAMES),
-    ("{% macro mm(a=1) %}x{% endmacro %}", "mm", "", ENGINE_NAMES),
-    ("{% macro mm(a=1) %}x{% endmacro %}", "mm._func", "", FUNC_NAMES),
-    ("{% for it in [1, 2] %}", "loop", "{% endfor %}", ENGINE_NAMES),
-    ("{% for it in [[1]] recursive %}", "loop", "{% endfor %}", ENGINE_NAMES),
-    ("{% macro cm() %}", "caller", "{% endmacro %}{% call cm() %}x{% endcall %}", ENGINE_NAMES),
-    ("{% macro vm() %}", "varargs", "{% endmacro %}{{ vm(1) }}", OBJ_NAMES),
-    ("{% macro km() %}", "kwargs", "{% endmacro %}{{ km(a=1) }}", OBJ_NAMES),
-    ("{% set ns = namespace(v=o) %}", "ns.v", "", TRACER_NAMES),
-    ("{% set al = o %}", "al", "", TRACER_NAMES),
-    ("{% with wl = o.child %}", "wl", "{% endwith %}", TRACER_NAMES),
-    ("{% for it in ps %}", "it", "{% endfor %}", TRACER_NAMES),
-    ("{% for it in ps %}", "loop.previtem", "{% endfor %}", TRACER_NAMES),
-    ("{% for k, it in dct|items %}", "it", "{% endfor %}", TRACER_NAMES),
-    ("{% macro rm(it) %}", "it", "{% endmacro %}{{ rm(o) }}", TRACER_NAMES),
-    ("", "(ps|first)", "", TRACER_NAMES),
-    ("", "(ps|last)", "", TRACER_NAMES),
-    ("", "(nope|default(o))", "", TRACER_NAMES),
-    ("", "(o if true else 1)", "", TRACER_NAMES),
-    ("", "(ps|list)[0]", "", TRACER_NAMES),
-    ("", "(ps|reverse|first)", "", TRACER_NAMES),
-    ("", "(ps|batch(1)|first|first)", "", TRACER_NAMES),
-    ("", "(ps|sort(attribute='name')|first)", "", TRACER_NAMES),
-    ("", "(o.meth)", "", METH_NAMES),
-    ("", "(f|attr('__call__'))", "", FUNC_NAMES),
+# Data receivers: (context variable, hops) with hops = [("a", attr) | ("i", key)]
+_DATA_RECV = _PROBE_HOPS + [
+    ("C", []), ("f", []), ("m", []), ("o", [("a", "meth")]), ("g", []), ("co", []), ("ag", []), ("code", []), ("frame", []),
+    ("tb", []), ("st", []), ("mys", []), ("mk", []), ("num", []), ("lst", []), ("dct", []),
+    ("f", [("a", "__code__")]), ("g", [("a", "gi_frame")]), ("tb", [("a", "tb_frame")]),
 ]
+
+# Engine-provided receivers: (prefix, expression, suffix); available only as expressions.
+_ENGINE_RECV = [
+    ("", "''", ""),
+    ("", "'a{0}'", ""),
+    ("", "('x'|safe)", ""),
+    ("", "0", ""),
+    ("", "[]", ""),
+    ("", "{}", ""),
+    ("", "()", ""),
+    ("", "true", ""),
+    ("", "none", ""),
+    ("", "range(2)", ""),
+    ("", "range", ""),
+    ("", "lipsum", ""),
+    ("", "cycler", ""),
+    ("", "joiner", ""),
+    ("", "namespace", ""),
+    ("", "namespace(a=1)", ""),
+    ("", "cycler(1, 2)", ""),
+    ("", "joiner()", ""),
+    ("", "nope", ""),
+    ("", "self", ""),
+    ("{% block bk %}{% endblock %}", "self.bk", ""),
+    ("{% macro mm(a=1) %}x{% endmacro %}", "mm", ""),
+    ("{% for it in [1, 2] %}", "loop", "{% endfor %}"),
+    ("{% for it in [[1]] recursive %}", "loop", "{% endfor %}"),
+    ("{% for it in [1, 2] %}", "loop.cycle", "{% endfor %}"),
+    ("{% macro cm() %}", "caller", "{% endmacro %}{% call cm() %}x{% endcall %}"),
+    ("{% macro vm() %}", "varargs", "{% endmacro %}{{ vm(1) }}"),
+    ("{% macro km() %}", "kwargs", "{% endmacro %}{{ km(a=1) }}"),
+    ("{% set ns = namespace(v=o) %}", "ns.v", ""),
+    ("{% set al = o %}", "al", ""),
+    ("{% with wl = o.child %}", "wl", "{% endwith %}"),
+    ("{% for it in ps %}", "it", "{% endfor %}"),
+    ("{% for it in ps %}", "loop.previtem", "{% endfor %}"),
+    ("{% for it in ps %}", "loop.nextitem", "{% endfor %}"),
+    ("{% for k, it in dct|items %}", "it", "{% endfor %}"),
+    ("{% macro rm(it) %}", "it", "{% endmacro %}{{ rm(o) }}"),
+    ("", "(ps|first)", ""),
+    ("", "(ps|last)", ""),
+    ("", "(nope|default(o))", ""),
+    ("", "(o if true else 1)", ""),
+    ("", "(ps|list)[0]", ""),
+    ("", "(ps|reverse|first)", ""),
+    ("", "(ps|batch(1)|first|first)", ""),
+    ("", "(ps|sort(attribute='name')|first)", ""),
+    ("", "(dct|dictsort|first)[1]", ""),
+    ("", "(o.meth)", ""),
+    ("", "(st.upper)", ""),
+    ("", "(lst.index)", ""),
+]
+
+
+def _name_pool(obj):
+    """Private / internal attribute names worth trying on obj: every single-underscore name it has, the
+    picked dunder names it has, and the public names the sandbox classifies as internal for its type."""
+    from jinja2.sandbox import is_internal_attribute
+
+    try:
+        listed = dir(obj)
+    except Exception:  # noqa: BLE001
+        listed = []
+    pool = [n for n in listed if n.startswith("_") and not (n.startswith("__") and n.endswith("__"))]
+    pool += [n for n in TRACER_NAMES + ["_Namespace__attrs", "_TemplateReference__context"] if n not in pool and _has(obj, n)]
+    pool += [n for n in DUNDER_PICK if _has(obj, n)]
+    pool += [n for n in listed if not n.startswith("_") and is_internal_attribute(obj, n)]
+    return pool or ["__class__"]
+
+
+def _has(obj, n):
+    try:
+        getattr(obj, n)
+        return True
+    except Exception:  # noqa: BLE001
+        return False
+
+
+_pools = {}
+
+
+def pools():
+    """-> dict(data=[(base, hops, names)...], engine=[(pre, expr, suf, names)...], all=[names])  (built once)."""
+    if _pools:
+        return _pools
+    import warnings
+
+    w = World()
+    try:
+        data = []
+        for base, hops in _DATA_RECV:
+            obj = w.ctx[base]
+            for kind, k in hops:
+                obj = getattr(obj, k) if kind == "a" else obj[k]
+            data.append((base, hops, _name_pool(obj)))
+        engine = []
+        env = make_env("plain")
+        grabbed = []
+        ctx = dict(w.ctx, grab=lambda x: grabbed.append(x) or "")
+        for pre, expr, suf in _ENGINE_RECV:
+            del grabbed[:]
+            env.from_string(pre + "{{ grab(" + expr + ") }}" + suf).render(ctx)
+            if not grabbed:
+                raise RuntimeError("engine receiver %r not reached" % expr)
+            engine.append((pre, expr, suf, _name_pool(grabbed[0])))
+    finally:
+        w.close()
+    allnames = sorted(set(n for r in data for n in r[2]) | set(n for r in engine for n in r[3]) | set(LEGACY_NAMES))
+    _pools.update(data=data, engine=engine, all=allnames)
+    return _pools
 
 
 def _q(s):
@@ -751,23 +799,36 @@ CONS = {"value": CONS_VALUE, "text": CONS_TEXT, "seq": CONS_SEQ, "seq_default": 
         "recvs_unless": CONS_RECVS_UNLESS, "opaque": CONS_OPAQUE, "groups": CONS_GROUPS}
 
 
-def build_escape_src(recv, name, primname, cons, v=0, w=0, u=0, style=0, guard=False):
-    """recv: ("data", index) | ("engine", index).  Returns (src, names)."""
+GUARDS = {
+    "value": GUARD % "@V@",
+    "text": "{% if @V@ %}" + SENT + "{% endif %}",
+    "seq": "{% for q in @V@ %}" + GUARD % "q" + "{% endfor %}",
+    "seq_default": "{% for q in @V@ %}{% if q != '' %}" + SENT + "{% endif %}{% endfor %}",
+    "groups": "{% for k, grp in @V@ %}" + GUARD % "k" + "{% endfor %}",
+}
+
+
+def build_escape_src(recv, name, primname, cons, v=0, w=0, u=0, style=0, guard=0):
+    """recv: ("data", index) | ("engine", index); guard: 0 none, 1 after, 2 before the consumption.
+    Returns (src, names)."""
     fn, kind, needs_base = PRIMS[primname]
+    P = pools()
     pre_r, suf_r = "", ""
     if recv[0] == "data":
-        base, hops, _ = DATA_RECEIVERS[recv[1]]
+        base, hops, _ = P["data"][recv[1]]
         R = dict(expr=recv_expr(base, hops, style), base=base, path=recv_path(hops), field=recv_field(hops), fbase=base)
     else:
-        pre_r, expr, suf_r, _ = ENGINE_RECEIVERS[recv[1]]
+        pre_r, expr, suf_r, _ = P["engine"][recv[1]]
         R = dict(expr=expr, base=expr, path="", field="", fbase=expr)
     R.update(name=name, v=v, w=w, u=u)
     pre, expr, suf = fn(R)
-    if kind == "text" and "!r}" in expr and cons not in ("print", "string", "escape"):
-        cons = "print"  # repr of a refused value is the text 'Undefined', not ''
+    is_repr = kind == "text" and "!r}" in pre + expr  # repr of a refused value is the text 'Undefined', not ''
+    if is_repr and cons not in ("print", "string", "escape"):
+        cons = "print"
     body = CONS[kind][cons].replace("@V@", expr)
-    if guard and kind == "value":
-        body += GUARD % expr
+    if guard and kind in GUARDS and not is_repr:
+        gtext = GUARDS[kind].replace("@V@", expr)
+        body = body + gtext if guard == 1 else gtext + body
     names = [name] if primname.startswith("names_loop") else []
     return pre_r + pre + body + suf + suf_r, names
 
@@ -780,53 +841,70 @@ ENVS4 = [("sandbox", False), ("sandbox", True), ("immutable", False), ("immutabl
 PRIM_NAMES = sorted(PRIMS)
 
 
+def _case(recv, name, primname, cons, v, w, u, style, guard, kind, is_async, autoescape, extra_names=()):
+    src, names = build_escape_src(recv, name, primname, cons, v, w, u, style, guard)
+    return {"env": kind, "async": is_async, "autoescape": autoescape, "src": src, "names": names + list(extra_names) if names else [],
+            "tags": ["prim_" + primname, "recv_" + recv[0]]}
+
+
 @st.composite
 def escape_case(draw):
-    if draw(st.integers(0, 9)) < 7:
-        ri = draw(st.integers(0, len(DATA_RECEIVERS) - 1))
+    P = pools()
+    if draw(st.integers(0, 9)) < 6:
+        ri = draw(st.integers(0, len(P["data"]) - 1))
         recv = ("data", ri)
-        pool = DATA_RECEIVERS[ri][2]
+        pool = P["data"][ri][2]
         prims = PRIM_NAMES
     else:
-        ri = draw(st.integers(0, len(ENGINE_RECEIVERS) - 1))
+        ri = draw(st.integers(0, len(P["engine"]) - 1))
         recv = ("engine", ri)
-        pool = ENGINE_RECEIVERS[ri][3]
+        pool = P["engine"][ri][3]
         prims = [p for p in PRIM_NAMES if not PRIMS[p][2]]
-    name = draw(st.sampled_from(pool)) if draw(st.integers(0, 19)) else draw(st.sampled_from(ALL_NAMES))
     primname = draw(st.sampled_from(prims))
+    if PRIMS[primname][1] == "opaque":
+        # a leak into sort/min/max/unique/sum shows only as tracer use: prefer tracer-backed names
+        tr = [n for n in pool if n in TRACER_NAMES]
+        pool = tr or pool
+    nd = [n for n in pool if not (n.startswith("__") and n.endswith("__"))]
+    if nd and draw(st.booleans()):
+        pool = nd  # half of the draws target single-underscore / tracer-backed names where the receiver has any
+    name = draw(st.sampled_from(pool)) if draw(st.integers(0, 19)) else draw(st.sampled_from(P["all"]))
     cons = draw(st.sampled_from(cons_names(primname)))
     v, w, u, style = draw(st.integers(0, 8)), draw(st.integers(0, 3)), draw(st.integers(0, 23)), draw(st.integers(0, 5))
-    guard = draw(st.booleans())
+    guard = draw(st.sampled_from([1, 2, 0, 1]))
     kind, is_async = draw(st.sampled_from(ENVS4))
     autoescape = draw(st.booleans())
-    src, names = build_escape_src(recv, name, primname, cons, v, w, u, style, guard)
-    if names and draw(st.booleans()):
-        names = names + draw(st.lists(st.sampled_from(ALL_NAMES), max_size=3))
-    return {"env": kind, "async": is_async, "autoescape": autoescape, "src": src, "names": names}
+    extra = draw(st.lists(st.sampled_from(P["all"]), max_size=3)) if primname.startswith("names_loop") else ()
+    return _case(recv, name, primname, cons, v, w, u, style, guard, kind, is_async, autoescape, extra)
 
 
 def core_cases():
-    """Enumerated core: every primitive x every tracer/internal name on its natural receiver, rotating
-    through consumptions, spelling variants and the 4 environments."""
+    """Enumerated core: every primitive x every private/internal name of every receiver without hops (and
+    the engine receivers), rotating through consumptions, spelling variants and the 4 environments."""
+    P = pools()
     seen = set()
-    natural = [(("data", i), r[2]) for i, r in enumerate(DATA_RECEIVERS) if not r[1] or r[0] == "o"]
-    natural += [(("engine", i), r[3]) for i, r in enumerate(ENGINE_RECEIVERS)]
+    natural = [(("data", i), r[2]) for i, r in enumerate(P["data"]) if not r[1]]
+    for i, r in enumerate(P["engine"]):
+        dunder = [n for n in r[3] if n.startswith("__") and n.endswith("__")]
+        natural.append((("engine", i), [n for n in r[3] if n not in dunder] + dunder[i % 5::5]))
     k = 0
     for recv, pool in natural:
         for name in pool:
             for primname in PRIM_NAMES:
                 if recv[0] == "engine" and PRIMS[primname][2]:
                     continue
+                if PRIMS[primname][1] == "opaque" and name not in TRACER_NAMES:
+                    continue
                 cl = cons_names(primname)
                 k += 1
-                cons = cl[k % len(cl)]
-                src, names = build_escape_src(recv, name, primname, cons, v=k % 9, w=k % 4, u=k % 24, style=k % 6, guard=bool(k % 2))
-                kind, is_async = ENVS4[k % 4]
-                key = (src, kind, is_async)
+                envkind, is_async = ENVS4[k % 4]
+                c = _case(recv, name, primname, cl[k % len(cl)], k % 9, k % 4, k % 24, k % 6, [1, 2, 0][k % 3], envkind, is_async,
+                          bool((k // 4) % 2))
+                key = (c["src"], envkind, is_async)
                 if key in seen:
                     continue
                 seen.add(key)
-                yield {"env": kind, "async": is_async, "autoescape": bool((k // 4) % 2), "src": src, "names": names}
+                yield c
 
 
 # ---------------------------------------------------------------------------------------
@@ -877,99 +955,109 @@ def structural_violations(code):
 # broad statement programs (compiled only) -----------------------------------------------
 
 _VARS = ["a", "b", "c", "x", "loop", "self", "caller", "varargs", "super", "q", "it"]
+_LITS = ["1", "'s'", "[]", "{}", "none", "true", "'a{0.b}'", "range(3)"]
 _ATTRS = ["b", "_p", "__class__", "items", "x", "format", "mro", "gi_frame"]
 _FILTERS = ["upper", "list", "first", "string", "safe", "length", "trim", "e"]
+_EXPR_KINDS = {
+    "attr": "%(a)s.%(at)s",
+    "item": "%(a)s[%(b)s]",
+    "sitem": "%(a)s['%(at)s']",
+    "slice": "%(a)s[%(b)s:%(c)s]",
+    "slice3": "%(a)s[::%(b)s]",
+    "call": "%(a)s(%(b)s, k=%(c)s)",
+    "callstar": "%(a)s(*%(b)s, **%(c)s)",
+    "filter": "(%(a)s|%(fl)s)",
+    "filterarg": "(%(a)s|default(%(b)s))",
+    "filterkw": "(%(a)s|default(value=%(b)s, boolean=%(c)s))",
+    "attrfilter": "(%(a)s|attr('%(at)s'))",
+    "mapattr": "(%(a)s|map(attribute='%(at)s')|list)",
+    "test": "(%(a)s is defined)",
+    "testarg": "(%(a)s is divisibleby(%(b)s))",
+    "nottest": "(%(a)s is not sameas %(b)s)",
+    "cond": "(%(a)s if %(b)s else %(c)s)",
+    "condnoelse": "(%(a)s if %(b)s)",
+    "binop": "(%(a)s + %(b)s)",
+    "pow": "(%(a)s ** %(b)s)",
+    "concat": "(%(a)s ~ %(b)s ~ %(c)s)",
+    "cmp": "(%(a)s < %(b)s <= %(c)s)",
+    "inop": "(%(a)s in %(b)s)",
+    "notin": "(%(a)s not in %(b)s)",
+    "logic": "(not %(a)s and %(b)s or %(c)s)",
+    "neg": "(-%(a)s)",
+    "list": "[%(a)s, %(b)s]",
+    "tuple": "(%(a)s, %(b)s)",
+    "dict": "{'k': %(a)s, 'j': %(b)s}",
+    "methcall": "%(a)s.%(at)s(%(b)s)",
+    "fmtcall": "'{0.%(at)s}'.format(%(a)s)",
+}
+_EK = sorted(_EXPR_KINDS)
 
 
-def _expr(depth):
-    leaf = st.one_of(
-        st.sampled_from(_VARS),
-        st.sampled_from(["1", "'s'", "[]", "{}", "none", "true", "'a{0.b}'", "range(3)"]),
-    )
-    if depth <= 0:
-        return leaf
-
-    sub = st.deferred(lambda: _expr(depth - 1))
-
-    def mk(kind, a, b, c, at, fl):
-        return {
-            "attr": "%s.%s" % (a, at),
-            "item": "%s[%s]" % (a, b),
-            "sitem": "%s['%s']" % (a, at),
-            "slice": "%s[%s:%s]" % (a, b, c),
-            "call": "%s(%s, k=%s)" % (a, b, c),
-            "callstar": "%s(*%s, **%s)" % (a, b, c),
-            "filter": "(%s|%s)" % (a, fl),
-            "filterarg": "(%s|default(%s))" % (a, b),
-            "attrfilter": "(%s|attr('%s'))" % (a, at),
-            "mapattr": "(%s|map(attribute='%s')|list)" % (a, at),
-            "test": "(%s is defined)" % a,
-            "testarg": "(%s is divisibleby(%s))" % (a, b),
-            "cond": "(%s if %s else %s)" % (a, b, c),
-            "condnoelse": "(%s if %s)" % (a, b),
-            "binop": "(%s + %s)" % (a, b),
-            "concat": "(%s ~ %s)" % (a, b),
-            "cmp": "(%s < %s <= %s)" % (a, b, c),
-            "inop": "(%s in %s)" % (a, b),
-            "logic": "(not %s and %s or %s)" % (a, b, c),
-            "neg": "(-%s)" % a,
-            "list": "[%s, %s]" % (a, b),
-            "tuple": "(%s, %s)" % (a, b),
-            "dict": "{'k': %s, %s: %s}" % (a, b, c),
-            "methcall": "%s.%s(%s)" % (a, at, b),
-            "fmtcall": "'{0.%s}'.format(%s)" % (at, a),
-        }[kind]
-
-    kinds = ["attr", "item", "sitem", "slice", "call", "callstar", "filter", "filterarg", "attrfilter", "mapattr", "test",
-             "testarg", "cond", "condnoelse", "binop", "concat", "cmp", "inop", "logic", "neg", "list", "tuple", "dict",
-             "methcall", "fmtcall"]
-    return st.one_of(leaf, st.builds(mk, st.sampled_from(kinds), sub, sub, sub, st.sampled_from(_ATTRS), st.sampled_from(_FILTERS)))
+def _rexpr(r, depth):
+    if depth <= 0 or r.random() < 0.25:
+        return r.choice(_VARS) if r.random() < 0.7 else r.choice(_LITS)
+    kind = r.choice(_EK)
+    t = _EXPR_KINDS[kind]
+    d = {"at": r.choice(_ATTRS), "fl": r.choice(_FILTERS)}
+    for k in "abc":
+        if "%(" + k + ")s" in t:
+            d[k] = _rexpr(r, depth - 1)
+    return t % d
 
 
-def _stmt(depth):
-    e = _expr(2)
-    out = st.builds(lambda x: "{{ %s }}" % x, e)
-    if depth <= 0:
-        return st.one_of(out, st.just("text"))
-    body = st.lists(st.deferred(lambda: _stmt(depth - 1)), min_size=1, max_size=3).map("".join)
+_STMT_KINDS = {
+    "out": "{{ %(x)s }}",
+    "text": "text",
+    "if": "{%% if %(x)s %%}%(b1)s{%% elif %(y)s %%}%(b2)s{%% else %%}z{%% endif %%}",
+    "for": "{%% for it in %(x)s %%}%(b1)s{{ loop.index }}{%% else %%}%(b2)s{%% endfor %%}",
+    "forif": "{%% for it in %(x)s if %(y)s %%}%(b1)s{%% endfor %%}",
+    "forrec": "{%% for it in %(x)s recursive %%}%(b1)s{{ loop(%(y)s) }}{%% endfor %%}",
+    "forunpack": "{%% for q, (it, c) in %(x)s %%}%(b1)s{%% endfor %%}",
+    "set": "{%% set %(nm)s = %(x)s %%}%(b1)s",
+    "settuple": "{%% set %(nm)s, q = %(x)s %%}%(b1)s",
+    "setblock": "{%% set %(nm)s %%}%(b1)s{%% endset %%}",
+    "setblockfilter": "{%% set %(nm)s | upper %%}%(b1)s{%% endset %%}",
+    "setns": "{%% set ns = namespace(a=%(x)s) %%}{%% set ns.b = %(y)s %%}{{ ns.b }}%(b1)s",
+    "with": "{%% with %(nm)s = %(x)s, q = %(y)s %%}%(b1)s{%% endwith %%}",
+    "macro": "{%% macro m_%(nm)s(a, b=%(x)s) %%}%(b1)s{{ caller(%(y)s) if caller }}{{ varargs }}{{ kwargs }}{%% endmacro %%}{{ m_%(nm)s(%(y)s) }}",
+    "call": "{%% macro c_%(nm)s(a) %%}{{ caller(a) }}{%% endmacro %%}{%% call(q) c_%(nm)s(%(x)s) %%}%(b1)s{%% endcall %%}",
+    "callexpr": "{%% call %(v)s.b(%(y)s) %%}%(b1)s{%% endcall %%}",
+    "filterblock": "{%% filter upper %%}%(b1)s{%% endfilter %%}",
+    "filterblockarg": "{%% filter default(%(x)s) %%}%(b1)s{%% endfilter %%}",
+    "autoescape": "{%% autoescape %(x)s %%}%(b1)s{%% endautoescape %%}",
+    "block": "{%% block blk_%(uid)s %%}%(b1)s{{ super() }}{%% endblock %%}",
+    "blockscoped": "{%% block sblk_%(uid)s scoped %%}%(b1)s{%% endblock %%}{{ self.sblk_%(uid)s() }}",
+    "include": "{%% include %(x)s %%}{%% include [%(y)s, 'x'] ignore missing %%}{%% include 'x' without context %%}",
+    "import": "{%% import %(x)s as im_%(nm)s %%}{{ im_%(nm)s.f(%(y)s) }}",
+    "importctx": "{%% import 'x' as imc_%(nm)s with context %%}{{ imc_%(nm)s.%(nm)s }}",
+    "from": "{%% from %(x)s import fa_%(nm)s, g as fb_%(nm)s with context %%}{{ fa_%(nm)s(%(y)s) }}{{ fb_%(nm)s.b }}",
+    "trans": "{%% trans %(nm)s=%(x)s %%}t{{ %(nm)s }}{%% pluralize %%}u{%% endtrans %%}",
+    "do": "{%% do %(x)s %%}",
+    "loopctl": "{%% for it in %(x)s %%}{%% if %(y)s %%}{%% break %%}{%% endif %%}{%% continue %%}{%% endfor %%}",
+    "debug": "{%% debug %%}",
+    "raw": "{%% raw %%}{{ a.b }}{%% endraw %%}",
+}
+_SK = sorted(_STMT_KINDS)
+_NOT_IN_BLOCKISH = {"block", "blockscoped"}  # blocks are only generated outside macros / call blocks / loops
 
-    def mk(kind, x, y, b1, b2, nm):
-        return {
-            "out": "{{ %s }}" % x,
-            "if": "{%% if %s %%}%s{%% elif %s %%}%s{%% else %%}z{%% endif %%}" % (x, b1, y, b2),
-            "for": "{%% for it in %s %%}%s{{ loop.index }}{%% else %%}%s{%% endfor %%}" % (x, b1, b2),
-            "forif": "{%% for it in %s if %s %%}%s{%% endfor %%}" % (x, y, b1),
-            "forrec": "{%% for it in %s recursive %%}%s{{ loop(%s) }}{%% endfor %%}" % (x, b1, y),
-            "forunpack": "{%% for q, (it, c) in %s %%}%s{%% endfor %%}" % (x, b1),
-            "set": "{%% set %s = %s %%}%s" % (nm, x, b1),
-            "settuple": "{%% set %s, q = %s %%}%s" % (nm, x, b1),
-            "setblock": "{%% set %s %%}%s{%% endset %%}" % (nm, b1),
-            "setblockfilter": "{%% set %s | upper %%}%s{%% endset %%}" % (nm, b1),
-            "setns": "{%% set ns = namespace(a=%s) %%}{%% set ns.b = %s %%}{{ ns.b }}%s" % (x, y, b1),
-            "with": "{%% with %s = %s, q = %s %%}%s{%% endwith %%}" % (nm, x, y, b1),
-            "macro": "{%% macro m_%s(a, b=%s) %%}%s{{ caller(%s) if caller }}{{ varargs }}{{ kwargs }}{%% endmacro %%}{{ m_%s(%s) }}" % (nm, x, b1, y, nm, y),
-            "call": "{%% macro c_%s(a) %%}{{ caller(a) }}{%% endmacro %%}{%% call(q) c_%s(%s) %%}%s{%% endcall %%}" % (nm, nm, x, b1),
-            "callexpr": "{%% call %s.b(%s) %%}%s{%% endcall %%}" % (x if x[0].isalpha() and x.isidentifier() else "a", y, b1),
-            "filterblock": "{%% filter upper %%}%s{%% endfilter %%}" % b1,
-            "filterblockarg": "{%% filter default(%s) %%}%s{%% endfilter %%}" % (x, b1),
-            "autoescape": "{%% autoescape %s %%}%s{%% endautoescape %%}" % (x, b1),
-            "block": "{%% block blk_%s %%}%s{{ super() }}{%% endblock %%}" % (nm, b1),
-            "blockscoped": "{%% block sblk_%s scoped %%}%s{%% endblock %%}{{ self.sblk_%s() }}" % (nm, b1, nm),
-            "include": "{%% include %s %%}{%% include [%s, 'x'] ignore missing %%}{%% include 'x' without context %%}" % (x, y),
-            "import": "{%% import %s as im_%s %%}{{ im_%s.f(%s) }}" % (x, nm, nm, y),
-            "importctx": "{%% import 'x' as imc_%s with context %%}{{ imc_%s.%s }}" % (nm, nm, nm),
-            "from": "{%% from %s import fa_%s, g as fb_%s with context %%}{{ fa_%s(%s) }}{{ fb_%s.b }}" % (x, nm, nm, nm, y, nm),
-            "trans": "{%% trans %s=%s %%}t{{ %s }}{%% pluralize %%}u{%% endtrans %%}" % (nm, x, nm),
-            "do": "{%% do %s %%}" % x,
-            "loopctl": "{%% for it in %s %%}{%% if %s %%}{%% break %%}{%% endif %%}{%% continue %%}{%% endfor %%}" % (x, y),
-            "debug": "{% debug %}",
-            "raw": "{% raw %}{{ a.b }}{% endraw %}",
-        }[kind]
 
-    kinds = ["out", "if", "for", "forif", "forrec", "forunpack", "set", "settuple", "setblock", "setblockfilter", "setns",
-             "with", "macro", "call", "callexpr", "filterblock", "filterblockarg", "autoescape", "block", "blockscoped",
-             "include", "import", "importctx", "from", "trans", "do", "loopctl", "debug", "raw"]
-    return st.builds(mk, st.sampled_from(kinds), e, e, body, body, st.sampled_from(["a", "b", "x", "q"]))
+def _rstmt(r, depth, uid, allow_block=True):
+    kind = r.choice(_SK) if depth > 0 else r.choice(["out", "text", "do", "set"])
+    if kind in _NOT_IN_BLOCKISH and not allow_block:
+        kind = "out"
+    t = _STMT_KINDS[kind]
+    inner_block = allow_block and kind in ("if", "with", "set", "autoescape", "filterblock", "block")
+    d = {"nm": r.choice(["a", "b", "x", "q"]), "v": r.choice(["a", "b", "x"])}
+    if "%(uid)s" in t:
+        uid[0] += 1
+        d["uid"] = str(uid[0])
+    for k in ("x", "y"):
+        if "%(" + k + ")s" in t:
+            d[k] = _rexpr(r, 2)
+    for k in ("b1", "b2"):
+        if "%(" + k + ")s" in t:
+            d[k] = "".join(_rstmt(r, depth - 1, uid, inner_block) for _ in range(r.randint(1, 2)))
+    return t % d
 
 
 STRUCT_EXTS = ("jinja2.ext.i18n", "jinja2.ext.do", "jinja2.ext.loopcontrols", "jinja2.ext.debug")
@@ -977,24 +1065,12 @@ STRUCT_EXTS = ("jinja2.ext.i18n", "jinja2.ext.do", "jinja2.ext.loopcontrols", "j
 
 @st.composite
 def struct_program(draw):
-    parts = draw(st.lists(_stmt(2), min_size=1, max_size=4))
-    seen_blocks = set()
-    src = "".join(parts)
-    # block names must be unique in a template: number repeated ones
-    def uniq(m):
-        n = m.group(0)
-        k = 0
-        base = n
-        while n in seen_blocks:
-            k += 1
-            n = "%s%d" % (base, k)
-        seen_blocks.add(n)
-        return n
-
-    src = re.sub(r"(?<=\{% block )s?blk_\w+", uniq, src)
-    if draw(st.integers(0, 4)) == 0:
-        src = "{% extends " + draw(_expr(1)) + " %}" + src
-    kind, is_async = draw(st.sampled_from(ENVS4))
+    r = draw(st.randoms(use_true_random=False))
+    uid = [0]
+    src = "".join(_rstmt(r, 2, uid) for _ in range(r.randint(1, 3)))
+    if r.random() < 0.2:
+        src = "{% extends " + _rexpr(r, 1) + " %}" + src
+    kind, is_async = r.choice(ENVS4)
     return {"env": kind, "async": is_async, "struct": True, "src": src}
 
 
@@ -1125,6 +1201,9 @@ def build_call_case(env, is_async, ckey, pkey, akey, rkey):
     def fill(t):
         return t.replace("@U@", ckey).replace("@A@", args).replace("@K@", _q(pyname))
 
+    if pkey.startswith("call_block_target") and ckey.startswith("("):
+        # `{% call (expr)(...) %}` would be parsed as a call-block signature: name the callable first
+        tmpl = "{% set tq = @U@ %}" + tmpl.replace("@U@", "tq", 1).replace("{% set tq = tq %}", "{% set tq = @U@ %}")
     path = fill(tmpl)
     if pkey in _TOPLEVEL_ONLY or (pkey in _HAS_BLOCK and rkey != "plain"):
         # a block is rendered where it stands whatever encloses it at run time only for `if`;
@@ -1136,7 +1215,7 @@ def build_call_case(env, is_async, ckey, pkey, akey, rkey):
         src = body.replace("{% block body %}", "{% block body %}{{ sfn('pre') }}").replace("{% endblock %}", "{{ sfn('post') }}{% endblock %}")
     else:
         src = "{{ sfn('pre') }}" + body + "{{ sfn('post') }}"
-    loader = {k: fill(v) for k, v in LOADER_TEMPLATES.items()}
+    loader = {k: fill(v) for k, v in LOADER_TEMPLATES.items() if _q(k) in src}
     return {
         "env": env, "async": is_async, "src": src, "loader": loader, "callable": pyname, "marking": marking,
         "reached": reached, "levels": levels + (0 if rkey == "plain" else 1), "path": pkey,
